@@ -16,6 +16,7 @@ ASSUMPTIONS = ['the helper last_char_offset(&str) returns the start of the last 
                'a String is identified with the slice it was copied from (same allocation, offset, length)']
 CORPUS_V = ['1.2.900719925474100', '1.2.', 'foo', '1.2.3.4.5.6' * 0 + '1.', '', 'v', '1.2.x', ' 1.2.99999999999999999999999', 'é1.2.3', '1.2.3\n4.x', '1' * 300, 'a' * 257, '1.2.3-é', '1.2.3-' + 'a' * 255 + 'é', '1.0.0-' + 'a' * 260 + '\nb']
 # (text, expected offset of the rejected component, expected kind prefix): the component is not at the end of the string
+ACCEPTED = ['900719925474099.900719925474099.900719925474099', '0.0.0', '1.2.3-900719925474100']      # the bound itself is accepted; identifiers are not bounded
 NUMBER_CASES = [('900719925474100.1.1', 0, 'MaxIntError(900719925474100)'), ('1.900719925474100.1', 2, 'MaxIntError(900719925474100)'), ('1.2.900719925474100-rc.1', 4, 'MaxIntError(900719925474100)'),
                 ('1.2.99999999999999999999+build', 4, 'ParseIntError'), ('v 12.99999999999999999999.3', 5, 'ParseIntError'), ('99999999999999999999.0.0', 0, 'ParseIntError')]
 CORPUS_R = ['foo', '', '>=1.2.3 <1.0.0', 'é', '~1.y', '>', '1.2.900719925474100', '^1.2.99999999999999999999999', 'foo || bar', '1' * 300]
@@ -173,10 +174,17 @@ def number_group(s):
                 x = native.get('n%d' % i) or {}
                 if x.get('ok') is not False or x.get('offset') != off or not str(x.get('kind', '')).startswith(kind):
                     bad.append('Version::parse(%r): offset()=%r kind=%s (expected offset %d, %s)' % (t, x.get('offset'), x.get('kind'), off, kind))
+            for i, t in enumerate(ACCEPTED):
+                x = native.get('ok%d' % i) or {}
+                if x.get('ok') is not True:
+                    bad.append('Version::parse(%r) rejected: %s' % (t, x.get('kind')))
             return ('confirmed' if bad else 'mismatch'), '; '.join(bad[:3]) or 'no corpus string reproduces the abstract counterexample'
+        prog += [{'id': 'ok%d' % i, 'op': 'version', 'text': t} for i, t in enumerate(ACCEPTED)]
         return prog, judge
     s.cover(h, 'value just above the bound', [is_variant(pr, 'Ok'), val == MAXS + 1])
     s.prove(h, 'number: Ok(n) only for n <= MAX_SAFE_INTEGER, and then n is the parsed value', [is_variant(r, 'Ok')], AND(is_variant(pr, 'Ok'), payload(r, 'Ok')[0].t == val, z3.ULE(val, MAXS)))
+    s.prove(h, 'number: every parsed value up to and including MAX_SAFE_INTEGER is accepted unchanged', [is_variant(pr, 'Ok'), z3.ULE(val, MAXS)],
+            AND(is_variant(r, 'Ok'), payload(r, 'Ok')[0].t == val), decode=dec, replay=replay)
     s.prove(h, 'number: a value above MAX_SAFE_INTEGER => MaxIntError(value) positioned at the start of the component', [is_variant(pr, 'Ok'), z3.UGT(val, MAXS)],
             AND(is_variant(r, 'Err'), kind_some, is_variant(kind, 'MaxIntError'), payload(kind, 'MaxIntError')[0].t == val, same(ein, copied)), decode=dec, replay=replay)
     s.prove(h, 'number: u64 overflow (str::parse fails) => ParseIntError positioned at the start of the component', [is_variant(pr, 'Err')],
